@@ -147,6 +147,17 @@ func init() {
 	libModels["reflect.Value.Kind"] = func(x *Exec, st *State, e *ast.CallExpr, a []Value, _ []types.Type) (Value, bool) {
 		return rvKindOf(asTerm(a[0])), true
 	}
+	libModels["reflect.Value.CanAddr"] = func(x *Exec, st *State, e *ast.CallExpr, a []Value, _ []types.Type) (Value, bool) {
+		return x.uf("rvCanAddr", SBool, asTerm(a[0])), true
+	}
+	// go/constant constructors (T4): MakeInt64 / MakeUint64 give the Int constant of that value, MakeBool and
+	// MakeString the Bool / String constant; MakeFloat64 and MakeImag are uninterpreted
+	for n, uf := range map[string]string{"constant.MakeInt64": "constMakeInt", "constant.MakeUint64": "constMakeInt", "constant.MakeBool": "constMakeBool", "constant.MakeString": "constMakeString", "constant.MakeFloat64": "constMakeFloat", "constant.MakeImag": "constMakeImag"} {
+		uf := uf
+		libModels[n] = func(x *Exec, st *State, e *ast.CallExpr, a []Value, _ []types.Type) (Value, bool) {
+			return Term{"(" + uf + " " + asTerm(a[0]).S + ")", SInt}, true
+		}
+	}
 	libModels["reflect.Value.IsValid"] = func(x *Exec, st *State, e *ast.CallExpr, a []Value, _ []types.Type) (Value, bool) {
 		return x.uf("rvValid", SBool, asTerm(a[0])), true
 	}
